@@ -33,6 +33,12 @@ fn main() {
                 println!("{} {} quick={} thorough={}", p.id(), p.level(), p.size(Tier::Quick), p.size(Tier::Thorough));
             }
         }
+        "sizes" => {
+            for tier in [Tier::Quick, Tier::Thorough] {
+                let sp = props::c01::spaces(tier);
+                println!("{}: {}", tier.name(), sp.all().iter().map(|c| format!("{}={}", c.name, c.len())).collect::<Vec<_>>().join(" "));
+            }
+        }
         "tree" => {
             // debugging aid: print the parse result of a text (\n in the argument = newline)
             let text = args[2].replace("\\n", "\n");
